@@ -73,21 +73,34 @@ def strip_comments(src):
     return "".join(out)
 
 
-def forbidden_tokens():
-    """Scan every .lean file of the project (comments and string literals removed)."""
-    hits = []
-    for root, dirs, files in os.walk(LEAN):
-        if ".lake" in root.split(os.sep):
+def import_closure(roots):
+    """files of this project reachable through `import AnnetModel.…` lines from the given root files"""
+    seen, todo = set(), list(roots)
+    while todo:
+        f = todo.pop()
+        if f in seen or not os.path.exists(f):
             continue
-        for f in files:
-            if not f.endswith(".lean"):
-                continue
-            p = os.path.join(root, f)
-            code = strip_comments(open(p, encoding="utf-8").read())
-            for m in FORBIDDEN.finditer(code):
-                # `unsafe`/`partial` glue is not allowed in Model/Props/Lemmas/Spec either
-                hits.append("%s: %s" % (os.path.relpath(p, LEAN), m.group(0).strip()))
-    return hits
+        seen.add(f)
+        for m in re.finditer(r"^import\s+(AnnetModel(?:\.[A-Za-z0-9_]+)*)", open(f, encoding="utf-8").read(), re.M):
+            todo.append(os.path.join(LEAN, *m.group(1).split(".")) + ".lean")
+    return sorted(seen)
+
+
+def forbidden_tokens(prop_id=None):
+    """Scan the .lean files the property's theorems and the driver depend on (comments and strings removed)."""
+    roots = [os.path.join(LEAN, "Driver.lean")]
+    if prop_id:
+        roots.append(os.path.join(LEAN, "AnnetModel", "Props", prop_id + ".lean"))
+    hits = []
+    files = import_closure(roots)
+    for p in files:
+        code = strip_comments(open(p, encoding="utf-8").read())
+        for m in FORBIDDEN.finditer(code):
+            hits.append("%s: %s" % (os.path.relpath(p, LEAN), m.group(0).strip()))
+        rel = os.path.relpath(p, LEAN)
+        if ("/Glue/" not in rel and rel != "Driver.lean") and re.search(r"\bpartial\s+def\b", code):
+            hits.append("%s: partial def" % rel)
+    return hits, files
 
 
 def obligations(prop_id):
@@ -155,7 +168,7 @@ def proof_part(prop_id, tier="quick", extra_targets=()):
                 discharged += 1
             else:
                 failures.append("theorem %s: not accepted or bad axioms %s" % (n, ax))
-    hits = forbidden_tokens()
+    hits, scanned = forbidden_tokens(prop_id)
     if hits:
         failures.append("forbidden tokens: " + "; ".join(hits[:10]))
         discharged = 0
@@ -169,6 +182,6 @@ def proof_part(prop_id, tier="quick", extra_targets=()):
             failures.append("leanchecker failed: " + out[-500:])
             discharged = 0
     return dict(ok=not failures, driver_ok=ok_drv, obligations=len(names), discharged=discharged,
-                names=names, failures=failures, axioms=axioms,
+                names=names, failures=failures, axioms=axioms, scanned_files=[os.path.relpath(f, LEAN) for f in scanned],
                 log=(log_drv + "\n" + log_b + "\n" + log_a)[-6000:], wall_s=time.time() - t0,
                 checker_cmd=checker)
